@@ -13,7 +13,7 @@ LEVEL = "exploration"
 RULE = (
     "(a) rank arithmetic, exhaustive grid: _get_quantiles(alpha) for every B in [2, Bmax] x alpha on a grid in (0,1): "
     "0 <= lower rank <= upper rank <= 1 and ranks monotone in alpha (nesting). (b) end-to-end bootstrap runs on "
-    "generated elections (B in {2,3,10,40}, 2-3 sorted levels, lambda in {cv,0,0.1,10}, fixed effects, district "
+    "generated elections (B in {2,3,4,10,40}, 1-3 sorted levels from 0.05 to 0.95 - low levels make the two quantile ranks meet -, lambda in {cv,0,0.1,10}, fixed effects, district "
     "offices, partial reporters with pev 50-99.9): unit lower<=upper; aggregate rows lower<pred<upper, |pred_margin|<=1, "
     "pred_turnout>=0 finite; b-interval contains a-interval for a<b at unit and aggregate level. (c) model-level with "
     "generated draw matrices respecting the producer's invariants (skewed, constant, tied draws): the same ordering and "
@@ -25,7 +25,7 @@ RULE = (
     "draws and >=2 levels; (d) the extrapolation produced a prediction for >=1 outstanding unit. Distinct = (B, alpha set, structure hash)."
 )
 ASSUMPTIONS = [
-    "unobserved-bound parameters (y/z_unobserved_*) are left at their defaults",
+    "the margin's unobserved bounds (y_unobserved_*) are left at their defaults -1 / 1; the turnout factor's (z_unobserved_*) are varied in a third of the end-to-end cases",
     "(c) trusts the invariants |errors_B_1| <= errors_B_3 etc. as what compute_bootstrap_errors produces (clipping of y to [-1,1])",
 ]
 FLOOR = {"quick": 60, "thorough": 400}
@@ -64,15 +64,29 @@ def run_ranks(tier, ctx, si, sc):
     ctx.extra["cov_exhaustive_subspace"] = f"_get_quantiles on B in [2,{Bmax}] x {len(alphas)} alpha values, all pairs"
 
 
-E2E = gen.election_case(
+@gen.st.composite
+def _e2e_strategy(draw):
+    case = draw(_E2E_BASE)
+    # bounds of the not-yet-observed part of a unit's turnout factor (model parameters; the margin bounds stay at their
+    # defaults -1 / 1, so the statement's range for the margin is unaffected)
+    k = draw(gen.st.integers(0, 5))
+    if k == 0:
+        case["req"]["mp"]["z_unobserved_upper_bound"] = 2.0
+    elif k == 1:
+        case["req"]["mp"]["z_unobserved_lower_bound"] = 0.3
+    return case
+
+
+_E2E_BASE = gen.election_case(
     estimators=("bootstrap",),
-    Bs=(2, 3, 10, 40),
-    alphas_pool=(0.5, 0.7, 0.8, 0.9, 0.95),
+    Bs=(2, 3, 4, 10, 40),
+    alphas_pool=(0.05, 0.2, 0.3, 0.5, 0.7, 0.8, 0.9, 0.95),
     max_alphas=3,
     min_nonrep=1,
     statuses=(gen.N, gen.N, gen.N, gen.NH, gen.N0, gen.A, gen.Z, gen.B, gen.T_HI),
     lopsided=0.3,  # units whose baseline margin is +-0.99: a small swing pushes the raw prediction outside [-1, 1]
 )
+E2E = _e2e_strategy()
 
 
 @gen.st.composite
@@ -211,7 +225,7 @@ def check_e2e(case, ctx, extrap_seen=None):
         ctx.nontrivial([req["mp"].get("B"), alphas, common.structure_signature(case, recs)], common.summarize_case(case, recs))
 
 
-MODEL = boot.model_case(with_calls=False)
+MODEL = boot.model_case(with_calls=False, alphas_pool=(0.05, 0.2, 0.3, 0.5, 0.7, 0.8, 0.9, 0.95, 0.99))
 
 
 def check_model(case, ctx):
